@@ -594,7 +594,14 @@ pub fn run(m: &GenModel, cfg: &RunCfg) -> RunResult {
         if spawned.is_err() {
             return run_here(m, cfg);
         }
-        return match rx.recv_timeout(Duration::from_secs(WATCHDOG_SECS)) {
+        // deep-search models legitimately take seconds per solve, much more on a loaded
+        // machine: for them only the global wall-clock cap applies
+        let watchdog = if m.int_points() > 4096 {
+            3_600
+        } else {
+            WATCHDOG_SECS
+        };
+        return match rx.recv_timeout(Duration::from_secs(watchdog)) {
             Ok(r) => r,
             Err(_) => {
                 HUNG_THREADS.fetch_add(1, Ordering::Relaxed);
